@@ -116,6 +116,7 @@ class World:
         self.bw_sleeps = []
         self.multi = bool((scenario.get('knobs') or {}).get('sibling') == 'traffic')
         self.serial = bool((scenario.get('knobs') or {}).get('serial'))
+        self.twins = any(t.get('twin_of') is not None for t in scenario.get('transfers') or [])
         self.body_release = {}
 
     # ---- hooks called by stubs ---------------------------------------------
@@ -127,6 +128,11 @@ class World:
             return        # library code run while an aborted run is unwound
         if self.multi and prop in ('C10', 'C11', 'C12', 'C18'):
             return        # per-manager limits: not judged when two managers transfer
+        if self.twins and prop != 'C02':
+            # two transfers write one destination: requests, temporary files and
+            # callbacks cannot be attributed to one of them; only "a download that
+            # succeeded left the object's bytes" is judged
+            return
         if self.serial and prop not in ('C01', 'C02', 'C03', 'C05', 'C06', 'C09', 'C16', 'C17'):
             # serial mode (no threads) with Ctrl-C inside a request: only the
             # effect properties are judged; the statements about callbacks,
@@ -266,6 +272,15 @@ class World:
             self.violation('C11', 'io-chunk',
                            'destination write of %d bytes > io_chunksize=%d'
                            % (n, cfg['io_chunksize']))
+
+    def open_part_requests_of(self, tidx):
+        n = 0
+        for r in self.s3.log:
+            if r.get('t') == tidx and r['end'] is None and (
+                    r['op'] in ('upload_part', 'upload_part_copy') or
+                    (r['op'] == 'get_object' and r.get('Range'))):
+                n += 1
+        return n
 
     def open_requests_of(self, tidx):
         n = 0
@@ -583,7 +598,15 @@ class World:
                                                  short=spec.get('short_src', False))
         elif ty == 'download':
             t['key'] = spec.get('key_override') or 'o%d' % idx
-            data = pattern(idx, size)
+            twin = spec.get('twin_of')
+            if twin is not None:
+                # the SAME object downloaded to the SAME destination by a second,
+                # concurrent transfer (only C02's content oracle judges such runs)
+                self.twins = True
+                idx_data = twin
+            else:
+                idx_data = idx
+            data = pattern(idx_data, size)
             t['expect'] = data
             self.s3.objects[(BUCKET, t['key'])] = data
             d = spec['dst']
@@ -592,8 +615,9 @@ class World:
                 prev = spec.get('prev')
                 t['prev'] = None
                 if prev is not None:
-                    t['prev'] = bytes(pattern(idx, prev, salt=3))
-                    self.fs.files[t['path']] = bytearray(t['prev'])
+                    t['prev'] = bytes(pattern(idx_data, prev, salt=3))
+                    if twin is None:
+                        self.fs.files[t['path']] = bytearray(t['prev'])
                 self.fs.dests[t['path']] = idx
                 t['fileobj'] = t['path']
             elif d == 'fifo':
@@ -609,7 +633,16 @@ class World:
             t['src_key'] = spec.get('key_override') or 'src%d' % idx
             data = pattern(idx, size)
             t['expect'] = data
-            self.s3.objects[(BUCKET, t['src_key'])] = data
+            if spec.get('versioned'):
+                # the caller names a NON-current version of the source: the
+                # current one has the same length and other bytes
+                if not hasattr(self.s3, 'versions'):
+                    self.s3.versions = {}
+                self.s3.versions[(BUCKET, t['src_key'], 'v1')] = data
+                self.s3.objects[(BUCKET, t['src_key'])] = pattern(idx, size, salt=5)
+                t['copy_source'] = {'Bucket': BUCKET, 'Key': t['src_key'], 'VersionId': 'v1'}
+            else:
+                self.s3.objects[(BUCKET, t['src_key'])] = data
             self.key_to_t[t['src_key']] = t
         elif ty == 'delete':
             t['key'] = 'del%d' % idx
@@ -649,7 +682,8 @@ class World:
             f = m.download(BUCKET, t['key'], t['fileobj'], extra_args=extra,
                            subscribers=t['subs'])
         elif ty == 'copy':
-            f = m.copy({'Bucket': BUCKET, 'Key': t['src_key']}, BUCKET, t['key'],
+            f = m.copy(t.get('copy_source') or {'Bucket': BUCKET, 'Key': t['src_key']},
+                       BUCKET, t['key'],
                        extra_args=extra, subscribers=t['subs'])
         else:
             f = m.delete(BUCKET, t['key'], extra_args=extra, subscribers=t['subs'])
@@ -670,6 +704,8 @@ class World:
                 if t['type'] == 'download' and isinstance(t.get('path'), str) and \
                         t['spec'].get('dst') == 'path':
                     t['temps_at_result'] = list(self.fs.temps_of(t['path']))
+                    cur = self.fs.files.get(t['path'])
+                    t['dest_at_result'] = bytes(cur) if cur is not None else None
             t['outcome'] = ('ok', v, self.sim.stamp())
         except KeyboardInterrupt as e:
             if self.serial:
@@ -810,6 +846,8 @@ class World:
                     tidx = t['idx']
                     if hold == 'inflight':
                         pred = lambda: self.open_requests_of(tidx) > 0      # noqa: E731
+                    elif hold == 'part':
+                        pred = lambda: self.open_part_requests_of(tidx) > 0  # noqa: E731
                     elif hold == 'running':
                         pred = lambda: coord.status == 'running'            # noqa: E731
                     else:
@@ -881,6 +919,24 @@ class World:
                     self.sibling.shutdown()
                     self.sibling = None
                     self.probe('sibling-manager-shut-down')
+            elif op == 'bad_call':
+                # a call the manager rejects (a bucket the high-level operations
+                # do not support): the caller handles the ValueError and goes
+                # on using the manager
+                m = self.manager
+                arn = 'arn:aws:s3-object-lambda:us-west-2:123456789012:accesspoint/ap'
+                try:
+                    if a[1] == 'upload':
+                        m.upload(__import__('io').BytesIO(b'xy'), arn, 'k')
+                    elif a[1] == 'download':
+                        m.download(arn, 'k', __import__('io').BytesIO())
+                    elif a[1] == 'copy':
+                        m.copy({'Bucket': BUCKET, 'Key': 'k'}, arn, 'k2')
+                    else:
+                        m.delete(arn, 'k')
+                    self.probe('bad-call-accepted')
+                except ValueError:
+                    self.probe('bad-call-rejected')
             elif op == 'fresh':
                 t = self._prepare_transfer(a[1])
                 t['fresh'] = True
@@ -960,6 +1016,8 @@ class World:
                 tidx = vt['idx']
                 if kind == 'inflight':
                     pred = lambda: self.open_requests_of(tidx) > 0      # noqa: E731
+                elif kind == 'part':
+                    pred = lambda: self.open_part_requests_of(tidx) > 0  # noqa: E731
                 elif kind == 'running':
                     pred = lambda: coord.status == 'running'            # noqa: E731
                 else:
